@@ -58,10 +58,24 @@ func init() {
 			for _, t := range nt {
 				cases = append(cases, Case{ID: "names " + strings.ReplaceAll(t[0], "\n", " "), Pkg: "internal/analysis", Fn: "ZZC16Names", Args: []string{t[0], t[1]}, Tag: "names"})
 			}
+			// one analysis after another in the same process
+			warm := []string{
+				"vars {\n portion $p\n}\nsend [USD 1] (\n source = @world\n destination = { 1/3 to @b $p to @c }\n)",
+				"vars {\n portion $p\n}\nsend [USD 1] (\n source = { 10% from @a $p from @b }\n destination = @c\n)",
+				"send [USD 1] (\n source = @world\n destination = { 100% to @b 100% to @c }\n)",
+				"vars {\n portion $p\n portion $q\n}\nsend [USD 1] (\n source = @world\n destination = { 2/5 to @b $p to @c $q to @d }\n)",
+				"send [USD 1] (\n source = { 1/4 from @a remaining from @b }\n destination = { 1/0 to @c",
+			}
+			after := []string{validTemplates[11], validTemplates[10], validTemplates[2], "vars {\n portion $por1\n}\nsend [USD 1] (\n source = @world\n destination = { 3/4 to @d $por1 to @e }\n)"}
+			for _, w := range warm {
+				for _, v := range after {
+					cases = append(cases, Case{ID: "after " + strings.ReplaceAll(w, "\n", " ") + " ; " + strings.ReplaceAll(v, "\n", " "), Pkg: "internal/analysis", Fn: "ZZC16After", Args: []string{w, v}, Tag: "analysis-after-analysis"})
+				}
+			}
 			return cases
 		},
 		Bounds: stdBounds(
-			map[string]interface{}{"valid_templates": len(validTemplates), "literal_portions": "every non-negative numerator over the written denominators (symbolic)", "names": "6 templates; every declaration and use takes every name of a pool of 2-3 (all deletions / duplications / renamings), <= 3^8 assignments each"},
+			map[string]interface{}{"valid_templates": len(validTemplates), "literal_portions": "every non-negative numerator over the written denominators (symbolic)", "sequences": "5 first texts x 4 valid scripts analysed one after the other", "names": "6 templates; every declaration and use takes every name of a pool of 2-3 (all deletions / duplications / renamings), <= 3^8 assignments each"},
 			map[string]interface{}{"valid_templates": len(validTemplates), "names": "7 templates"}),
 		Assumptions: []string{"trees come from the real parser (native) on concrete template text; names are substituted in the imported tree", "big.Rat modelled exactly (numerator/denominator terms)",
 			"a variable referenced only before its declaration: whether it is also 'unused' is left open (two-sided)"},
